@@ -83,3 +83,15 @@ Proof.
   assert (F : ((N2 / M - e) * M <= (N1 / M + e) * M)%Q) by (apply Qmult_le_compat_r; Lqa.lra).
   Lqa.lra.
 Qed.
+
+(* ---------- whole calls ---------- *)
+Lemma hstep_fl_other h op : (forall row value maxv width style label, op <> OProgress row value maxv width style label) ->
+  hstep_fl h op = hstep h op.
+Proof. intros H. destruct op; try reflexivity. exfalso. eapply H. reflexivity. Qed.
+
+Lemma hstep_fl_same h row value maxv width style label :
+  hfilled_fl value maxv (hwidth (h_cols h) width) = hfilled value maxv (hwidth (h_cols h) width) ->
+  hstep_fl h (OProgress row value maxv width style label) = hstep h (OProgress row value maxv width style label).
+Proof.
+  intros E. cbn [hstep_fl hstep]. unfold hprogress_fl, hprogress, hprogress_row_fl, hprogress_row. rewrite E. reflexivity.
+Qed.
